@@ -152,3 +152,14 @@ Definition dsig_obs_model (t : oracle_tables) (store : list cert) (now : instant
            (exp_tree exp_mut : option node) : val :=
   VL [ dsig_obs_with (canon_hybrid (ot_canon t)) t store now root exp_tree exp_mut;
        canon_table_check (ot_canon t) ].
+
+(* ================================================================ independent readers (to state what a reader recovers) *)
+(* XML 1.0 3.3.3, attribute-value normalisation of a conforming reader on the raw attribute text, before references are
+   expanded: a literal TAB, LF or CR becomes a space (encoding/xml does not do this; a reader that does must still recover
+   the value from the canonical form) *)
+Definition xml_attr_ws_normalize (s : string) : string :=
+  concat_map (fun c => if is_ch 9 c || is_ch 10 c || is_ch 13 c then " " else String c EmptyString) s.
+(* character data: end-of-line handling (XML 1.0 2.11), then references *)
+Definition canon_text_read (s : string) : string := xml_unescape (xml_eol_normalize s).
+(* attribute values: end-of-line handling, white-space normalisation, then references *)
+Definition canon_attr_read (s : string) : string := xml_unescape (xml_attr_ws_normalize (xml_eol_normalize s)).
